@@ -1029,7 +1029,12 @@ func Throw(_ *VM, ball Term, _ Cont, env *Env) *Promise {
 
 // Catch calls goal. If an exception is thrown and unifies with catcher, it calls recover.
 func Catch(vm *VM, goal, catcher, recover Term, k Cont, env *Env) *Promise {
+	active := true // catch/3 is active only while goal is being executed.
 	return catch(func(err error) *Promise {
+		if !active {
+			return nil
+		}
+
 		e, ok := err.(Exception)
 		if !ok {
 			e = Exception{term: atomError.Apply(NewAtom("system_error"), NewAtom(err.Error()))}
@@ -1042,7 +1047,15 @@ func Catch(vm *VM, goal, catcher, recover Term, k Cont, env *Env) *Promise {
 
 		return Call(vm, recover, k, env)
 	}, func(ctx context.Context) *Promise {
-		return Call(vm, goal, k, env)
+		return Call(vm, goal, func(env *Env) *Promise {
+			active = false
+			return Delay(func(context.Context) *Promise {
+				return k(env)
+			}, func(context.Context) *Promise {
+				active = true // Backtracking into goal.
+				return Bool(false)
+			})
+		}, env)
 	})
 }
 
